@@ -7,10 +7,15 @@ package main
 //  (1) trace cases: the real fsDb.Put is run in a child process (driver "fscrash_put1" of this
 //      same binary) under strace; the syscalls that touch the store directory are abstracted
 //      into the model's fsop alphabet and emitted; Coq checks they are exactly put_ops.
-//  (2) crash cases: for (old,new) pairs of REAL persisted session records (produced by running
-//      a small engine app with a persister over fsDb) every crash state the model enumerates
-//      (partial-write lengths sampled) is materialised in a scratch directory and the real
-//      Persister.Load, the real Dump and a fresh engine's first Exec+Flush+Finish are run on it.
+//  (2) crash cases: for (previous,new) pairs of REAL persisted session records (produced by
+//      running a small engine app with a persister over fsDb; one stream has previous and new
+//      record of exactly equal length) the real Put of the new record onto the store is traced
+//      the same way, and every crash state of the OBSERVED operation list (partial-write lengths
+//      sampled, for in-place writes also around the first and last changed byte) is materialised
+//      in a scratch directory; the real Persister.Load, the real Dump and a fresh engine's first
+//      Exec+Flush+Finish are run on it.  Coq checks observed list = put_ops (mismatch otherwise)
+//      and judges every observed crash state with the C12 monitor (violation).
+//  (2b) the same pairs with the child really killed (SIGKILL injected on entry to a system call).
 //  (3) self-test: the same for the OLD operation list (truncate, write, close); the monitor
 //      must flag those.  They go into the prelude (selftest), not into cases.
 
@@ -92,9 +97,10 @@ func runFsCrashPut1(o opts) error {
 // ---- strace abstraction --------------------------------------------------------------------
 
 type fcEv struct {
-	op   string // CreateTemp Write Chmod Close Rename Remove OpenTrunc
+	op   string // CreateTemp Write Chmod Close Rename Remove OpenTrunc | OpenWrite OpenCreate WriteAt
 	a, b string // names relative to the store directory (absolute when outside)
 	data []byte
+	off  int64 // WriteAt only
 	ok   bool
 }
 
@@ -103,12 +109,43 @@ func (e fcEv) term() string {
 	switch e.op {
 	case "Write":
 		t = fmt.Sprintf("Write %s %s", hx.S(e.a), hx.B(e.data))
+	case "WriteAt":
+		t = fmt.Sprintf("WriteAt %s %d %s", hx.S(e.a), e.off, hx.B(e.data))
 	case "Rename":
 		t = fmt.Sprintf("Rename %s %s", hx.S(e.a), hx.S(e.b))
 	default:
 		t = fmt.Sprintf("%s %s", e.op, hx.S(e.a))
 	}
 	return fmt.Sprintf("(%s, %s)", t, hx.Bool(e.ok))
+}
+
+// eterm prints the event as an eop (payloads by reference into the case's blob table).
+func (e fcEv) eterm(blobs [][]byte, newi int) string {
+	var t string
+	switch e.op {
+	case "Write":
+		t = fmt.Sprintf("EWrite %s (%s)", hx.S(e.a), fcCref(blobs, newi, e.data))
+	case "WriteAt":
+		t = fmt.Sprintf("EWriteAt %s %d (%s)", hx.S(e.a), e.off, fcCref(blobs, newi, e.data))
+	case "Rename":
+		t = fmt.Sprintf("EOp (Rename %s %s)", hx.S(e.a), hx.S(e.b))
+	default:
+		t = fmt.Sprintf("EOp (%s %s)", e.op, hx.S(e.a))
+	}
+	return fmt.Sprintf("(%s, %s)", t, hx.Bool(e.ok))
+}
+
+func (e fcEv) toOp() fcOp { return fcOp{kind: e.op, a: e.a, b: e.b, data: e.data, off: e.off} }
+
+// fcOkOps returns the operations that took effect (failed system calls have none).
+func fcOkOps(evs []fcEv) []fcOp {
+	ops := []fcOp{}
+	for _, e := range evs {
+		if e.ok {
+			ops = append(ops, e.toOp())
+		}
+	}
+	return ops
 }
 
 var (
@@ -136,8 +173,17 @@ func fcRel(dir, p string) (string, bool) {
 	return p, false
 }
 
+type fcFd struct {
+	name   string
+	append bool  // writes append: O_APPEND, or sequential writes to a file that was empty when opened
+	off    int64 // next write offset otherwise
+}
+
 // fcAbstract turns a strace log into the events that touch files inside dir, between the markers.
-func fcAbstract(logfile, dir string) ([]fcEv, error) {
+// Opens are classified by their flags (O_CREAT|O_EXCL: CreateTemp; O_TRUNC: OpenTrunc; otherwise
+// OpenCreate / OpenWrite); a write on a descriptor that neither appends nor started on an empty
+// file becomes WriteAt with the offset tracked per descriptor.
+func fcAbstract(logfile, dir string, allowNoEnd bool) ([]fcEv, error) {
 	f, err := os.Open(logfile)
 	if err != nil {
 		return nil, err
@@ -146,7 +192,7 @@ func fcAbstract(logfile, dir string) ([]fcEv, error) {
 	sc := bufio.NewScanner(f)
 	sc.Buffer(make([]byte, 1<<20), 1<<26)
 	pending := map[string]string{}
-	fds := map[int]string{} // fd -> name, files inside dir opened for writing
+	fds := map[int]*fcFd{}  // files inside dir opened for writing
 	rofds := map[int]bool{} // fds of files inside dir opened read-only
 	var evs []fcEv
 	active := false
@@ -220,17 +266,23 @@ func fcAbstract(logfile, dir string) ([]fcEv, error) {
 				}
 				continue
 			}
-			op := "OpenTrunc"
-			if strings.Contains(flags, "O_CREAT") && strings.Contains(flags, "O_EXCL") {
-				op = "CreateTemp"
+			app := strings.Contains(flags, "O_APPEND")
+			op := "OpenWrite"
+			switch {
+			case strings.Contains(flags, "O_CREAT") && strings.Contains(flags, "O_EXCL"):
+				op, app = "CreateTemp", true
+			case strings.Contains(flags, "O_TRUNC") || name == "creat":
+				op, app = "OpenTrunc", true
+			case strings.Contains(flags, "O_CREAT"):
+				op = "OpenCreate"
 			}
 			evs = append(evs, fcEv{op: op, a: rel, ok: ok})
 			if ok {
-				fds[ret] = rel
+				fds[ret] = &fcFd{name: rel, append: app}
 			}
 		case "write", "pwrite64":
 			fd := firstInt()
-			n, in := fds[fd]
+			fi, in := fds[fd]
 			if !in {
 				continue
 			}
@@ -243,18 +295,30 @@ func fcAbstract(logfile, dir string) ([]fcEv, error) {
 			} else if !ok {
 				buf = nil
 			}
-			evs = append(evs, fcEv{op: "Write", a: n, data: buf, ok: ok})
+			switch {
+			case name == "pwrite64":
+				off := int64(0)
+				if j := strings.LastIndex(args, ","); j >= 0 {
+					off, _ = strconv.ParseInt(strings.TrimSpace(args[j+1:]), 0, 64)
+				}
+				evs = append(evs, fcEv{op: "WriteAt", a: fi.name, data: buf, off: off, ok: ok})
+			case fi.append:
+				evs = append(evs, fcEv{op: "Write", a: fi.name, data: buf, ok: ok})
+			default:
+				evs = append(evs, fcEv{op: "WriteAt", a: fi.name, data: buf, off: fi.off, ok: ok})
+				fi.off += int64(len(buf))
+			}
 		case "fchmod":
-			if n, in := fds[firstInt()]; in {
-				evs = append(evs, fcEv{op: "Chmod", a: n, ok: ok})
+			if fi, in := fds[firstInt()]; in {
+				evs = append(evs, fcEv{op: "Chmod", a: fi.name, ok: ok})
 			}
 		case "chmod", "fchmodat":
 			if rel, in := fcRel(dir, str(0)); in {
 				evs = append(evs, fcEv{op: "Chmod", a: rel, ok: ok})
 			}
 		case "ftruncate":
-			if n, in := fds[firstInt()]; in {
-				evs = append(evs, fcEv{op: "OpenTrunc", a: n, ok: ok})
+			if fi, in := fds[firstInt()]; in {
+				evs = append(evs, fcEv{op: "OpenTrunc", a: fi.name, ok: ok})
 			}
 		case "truncate":
 			if rel, in := fcRel(dir, str(0)); in {
@@ -262,8 +326,8 @@ func fcAbstract(logfile, dir string) ([]fcEv, error) {
 			}
 		case "close":
 			fd := firstInt()
-			if n, in := fds[fd]; in {
-				evs = append(evs, fcEv{op: "Close", a: n, ok: ok})
+			if fi, in := fds[fd]; in {
+				evs = append(evs, fcEv{op: "Close", a: fi.name, ok: ok})
 				delete(fds, fd)
 			}
 			delete(rofds, fd)
@@ -279,7 +343,7 @@ func fcAbstract(logfile, dir string) ([]fcEv, error) {
 			}
 		}
 	}
-	if !sawEnd {
+	if !sawEnd && !allowNoEnd {
 		return nil, fmt.Errorf("strace log without end marker")
 	}
 	return evs, sc.Err()
@@ -311,6 +375,41 @@ func fcRecordName(dir string, typ uint8, session, key string) (string, error) {
 	return rel, nil
 }
 
+// fcStracePut runs ONE real Put (child process fscrash_put1) on the store directory dir under
+// strace and returns the abstracted events.  inject != "": SIGKILL is injected on entry to that
+// system call; killed reports whether the child died (the fatal call is then the last event,
+// failed).  base is a scratch directory outside the store.
+func fcStracePut(self, base, dir string, typ uint8, session, key string, val []byte, inject string, oldstyle bool) ([]fcEv, bool, string, error) {
+	valfile := filepath.Join(base, "val")
+	os.WriteFile(valfile, val, 0600)
+	logf := filepath.Join(base, "strace.log")
+	args := []string{"-f", "-xx", "-s", "400000",
+		"-e", "trace=openat,open,creat,write,pwrite64,rename,renameat,renameat2,unlink,unlinkat,fchmod,chmod,fchmodat,close,ftruncate,truncate"}
+	if inject != "" {
+		args = append(args, "-e", "inject="+inject+":signal=KILL")
+	}
+	args = append(args, "-o", logf, self, "fscrash_put1")
+	cmd := exec.Command("strace", args...)
+	cmd.Env = append(os.Environ(), "FSCRASH_DIR="+dir, fmt.Sprintf("FSCRASH_TYPE=%d", typ),
+		"FSCRASH_SESSION="+session, "FSCRASH_KEY="+key, "FSCRASH_VALFILE="+valfile)
+	if oldstyle {
+		cmd.Env = append(cmd.Env, "FSCRASH_OLDSTYLE=1")
+	}
+	out, err := cmd.CombinedOutput()
+	killed := false
+	if err != nil {
+		if inject == "" {
+			return nil, false, "", fmt.Errorf("strace: %v: %s", err, out)
+		}
+		killed = true
+	}
+	evs, err := fcAbstract(logf, dir, killed)
+	if err != nil {
+		return nil, killed, "", err
+	}
+	return evs, killed, string(out), nil
+}
+
 func fcRunTrace(self string, spec fcTraceSpec) (string, []fcEv, string, error) {
 	base, err := os.MkdirTemp("/tmp", "fscrash-tr-")
 	if err != nil {
@@ -330,22 +429,7 @@ func fcRunTrace(self string, spec fcTraceSpec) (string, []fcEv, string, error) {
 	} else if spec.prior != nil {
 		os.WriteFile(filepath.Join(dir, pname), spec.prior, 0600)
 	}
-	valfile := filepath.Join(base, "val")
-	os.WriteFile(valfile, spec.val, 0600)
-	logf := filepath.Join(base, "strace.log")
-	cmd := exec.Command("strace", "-f", "-xx", "-s", "400000",
-		"-e", "trace=openat,open,creat,write,pwrite64,rename,renameat,renameat2,unlink,unlinkat,fchmod,chmod,fchmodat,close,ftruncate,truncate",
-		"-o", logf, self, "fscrash_put1")
-	cmd.Env = append(os.Environ(), "FSCRASH_DIR="+dir, fmt.Sprintf("FSCRASH_TYPE=%d", spec.typ),
-		"FSCRASH_SESSION="+spec.session, "FSCRASH_KEY="+spec.key, "FSCRASH_VALFILE="+valfile)
-	if spec.kind == 2 {
-		cmd.Env = append(cmd.Env, "FSCRASH_OLDSTYLE=1")
-	}
-	out, err := cmd.CombinedOutput()
-	if err != nil {
-		return "", nil, "", fmt.Errorf("strace: %v: %s", err, out)
-	}
-	evs, err := fcAbstract(logf, dir)
+	evs, _, out, err := fcStracePut(self, base, dir, spec.typ, spec.session, spec.key, spec.val, "", spec.kind == 2)
 	if err != nil {
 		return "", nil, "", err
 	}
@@ -361,7 +445,9 @@ func fcRunTrace(self string, spec fcTraceSpec) (string, []fcEv, string, error) {
 // ---- the engine app ------------------------------------------------------------------------
 
 var fcNodes = [][3]string{
-	{"root", "LOAD echo 0\nMAP echo\nMOUT first 1\nMOUT second 2\nHALT\nINCMP aa 1\nINCMP bb 2\n", "root {{.echo}}"},
+	{"root", "LOAD echo 0\nMAP echo\nMOUT first 1\nMOUT second 2\nMOUT third 3\nHALT\nINCMP aa 1\nINCMP bb 2\nINCMP dd 3\n", "root {{.echo}}"},
+	// dd re-runs itself on any input but 0 and reloads a one-digit value: consecutive records of equal length
+	{"dd", "LOAD digit 0\nRELOAD digit\nMAP digit\nMOUT back 0\nHALT\nINCMP _ 0\nINCMP . *\n", "dd {{.digit}}"},
 	{"aa", "LOAD stamp 0\nMAP stamp\nMOUT back 0\nMOUT deeper 1\nHALT\nINCMP _ 0\nINCMP cc 1\n", "aa {{.stamp}}"},
 	{"bb", "MOUT back 0\nHALT\nINCMP _ 0\n", "bb"},
 	{"cc", "LOAD long 0\nMOUT back 0\nHALT\nINCMP _ 0\n", "cc"},
@@ -394,6 +480,13 @@ func fcResource() *resource.DbResource {
 	})
 	rs.AddLocalFunc("stamp", func(ctx context.Context, sym string, input []byte) (resource.Result, error) {
 		return resource.Result{Content: "s:" + string(input), FlagSet: []uint32{8}}, nil
+	})
+	rs.AddLocalFunc("digit", func(ctx context.Context, sym string, input []byte) (resource.Result, error) {
+		d := "x"
+		if len(input) > 0 {
+			d = string(input[len(input)-1:])
+		}
+		return resource.Result{Content: "d:" + d}, nil
 	})
 	rs.AddLocalFunc("long", func(ctx context.Context, sym string, input []byte) (resource.Result, error) {
 		return resource.Result{Content: strings.Repeat("xy", 20), FlagSet: []uint32{9}}, nil
@@ -459,10 +552,43 @@ type fcOp struct {
 	kind string
 	a, b string
 	data []byte
+	off  int64
 }
 
-func fcPutOps(tmp, p string, val []byte) []fcOp {
-	return []fcOp{{kind: "CreateTemp", a: tmp}, {kind: "Write", a: tmp, data: val}, {kind: "Chmod", a: tmp}, {kind: "Close", a: tmp}, {kind: "Rename", a: tmp, b: p}}
+func (o fcOp) isWrite() bool { return o.kind == "Write" || o.kind == "WriteAt" }
+
+func (o fcOp) ev() fcEv { return fcEv{op: o.kind, a: o.a, b: o.b, data: o.data, off: o.off, ok: true} }
+
+// fcSimApply is the in-memory twin of fcApply (used to find where an in-place write changes bytes).
+func fcSimApply(fs map[string][]byte, o fcOp) {
+	switch o.kind {
+	case "CreateTemp", "OpenTrunc":
+		fs[o.a] = []byte{}
+	case "OpenCreate":
+		if _, ok := fs[o.a]; !ok {
+			fs[o.a] = []byte{}
+		}
+	case "Write":
+		if c, ok := fs[o.a]; ok {
+			fs[o.a] = append(append([]byte{}, c...), o.data...)
+		}
+	case "WriteAt":
+		if c, ok := fs[o.a]; ok {
+			n := append([]byte{}, c...)
+			for int64(len(n)) < o.off+int64(len(o.data)) {
+				n = append(n, 0)
+			}
+			copy(n[o.off:], o.data)
+			fs[o.a] = n
+		}
+	case "Rename":
+		if c, ok := fs[o.a]; ok {
+			fs[o.b] = c
+			delete(fs, o.a)
+		}
+	case "Remove":
+		delete(fs, o.a)
+	}
 }
 
 func fcPutOpsOld(p string, val []byte) []fcOp {
@@ -494,12 +620,29 @@ func fcApply(dir string, o fcOp, k int) error {
 		_, err = f.Write(o.data[:k])
 		f.Close()
 		return err
+	case "OpenCreate":
+		f, err := os.OpenFile(filepath.Join(dir, o.a), os.O_WRONLY|os.O_CREATE, 0600)
+		if err != nil {
+			return err
+		}
+		return f.Close()
+	case "WriteAt":
+		f, err := os.OpenFile(filepath.Join(dir, o.a), os.O_WRONLY, 0600)
+		if err != nil {
+			return nil // no such file: no-op in the model too
+		}
+		if k < 0 || k > len(o.data) {
+			k = len(o.data)
+		}
+		_, err = f.WriteAt(o.data[:k], o.off)
+		f.Close()
+		return err
 	case "Rename":
 		return os.Rename(filepath.Join(dir, o.a), filepath.Join(dir, o.b))
 	case "Remove":
 		return os.Remove(filepath.Join(dir, o.a))
 	}
-	return nil
+	return nil // OpenWrite, Chmod, Close: no effect on contents
 }
 
 type fcFile struct {
@@ -522,7 +665,7 @@ func fcMaterialise(blobs [][]byte, fs0 []fcFile, ops []fcOp, i, k int) (string, 
 			return dir, err
 		}
 	}
-	if i < len(ops) && ops[i].kind == "Write" {
+	if i < len(ops) && ops[i].isWrite() {
 		if err := fcApply(dir, ops[i], k); err != nil {
 			return dir, err
 		}
@@ -676,36 +819,98 @@ func fcObserve(pr fcPair, refs fcRefs, dir string, i, k int) (string, bool) {
 	return term, !good
 }
 
-func fcCaseTerm(pr fcPair, oldlist bool, tmp string, obs []string) string {
+func fcCaseTerm(pr fcPair, oldlist bool, tmp string, evs []fcEv, killed bool, obs []string) string {
 	fs0 := make([]string, len(pr.fs0))
 	for j, f := range pr.fs0 {
 		fs0[j] = fmt.Sprintf("(%s, %d)", hx.S(f.name), f.blob)
 	}
-	return fmt.Sprintf("FCrash %s %s %s %s %s %s %d [\n      %s]", hx.Bool(oldlist), hx.BList(pr.blobs), hx.List(fs0),
-		hx.S(pr.pname()), hx.S(pr.sid), hx.S(tmp), pr.newi, strings.Join(obs, ";\n      "))
+	ets := make([]string, len(evs))
+	for j, e := range evs {
+		ets[j] = e.eterm(pr.blobs, pr.newi)
+	}
+	return fmt.Sprintf("FCrash %s %s %s %s %s %s %d\n      %s %s [\n      %s]", hx.Bool(oldlist), hx.BList(pr.blobs), hx.List(fs0),
+		hx.S(pr.pname()), hx.S(pr.sid), hx.S(tmp), pr.newi, hx.List(ets), hx.Bool(killed), strings.Join(obs, ";\n      "))
 }
 
-// fcCrashCase materialises the crash states of one pair and returns the Coq term, the number of
-// crash states and how many of them the Go copy of the monitor flags.
-func fcCrashCase(pr fcPair, oldlist bool, thorough bool) (string, int, int, error) {
+// fcStoreFor writes the pair's store (fs0) into base/store.
+func fcStoreFor(pr fcPair, base string) string {
+	dir := filepath.Join(base, "store")
+	os.MkdirAll(dir, 0700)
+	for _, f := range pr.fs0 {
+		os.WriteFile(filepath.Join(dir, f.name), pr.blobs[f.blob], 0600)
+	}
+	return dir
+}
+
+// fcTmpOf returns the name of the temp file the real code created (first CreateTemp event).
+func fcTmpOf(evs []fcEv) string {
+	for _, e := range evs {
+		if e.op == "CreateTemp" {
+			return e.a
+		}
+	}
+	return ".tmp-none"
+}
+
+// fcCrashCase: the REAL Put of the pair's new record onto the pair's store is traced (strace);
+// the crash states of the OBSERVED operation list — whatever it is — are materialised (partial
+// lengths of every write sampled) and observed.  For the self-test (oldlist) the operation list is
+// the pre-repair one instead.  Returns the Coq term, the number of crash states and how many of
+// them the Go copy of the monitor flags.
+func fcCrashCase(self string, pr fcPair, oldlist bool, thorough bool) (string, int, int, error) {
 	p := pr.pname()
 	newb := pr.blobs[pr.newi]
-	var ops []fcOp
+	var evs []fcEv
+	tmp := pr.tmp
 	if oldlist {
-		ops = fcPutOpsOld(p, newb)
+		for _, o := range fcPutOpsOld(p, newb) {
+			evs = append(evs, o.ev())
+		}
 	} else {
-		ops = fcPutOps(pr.tmp, p, newb)
+		base, err := os.MkdirTemp("/tmp", "fscrash-tr-")
+		if err != nil {
+			return "", 0, 0, err
+		}
+		dir := fcStoreFor(pr, base)
+		evs, _, _, err = fcStracePut(self, base, dir, db.DATATYPE_STATE, "", pr.sid, newb, "", false)
+		os.RemoveAll(base)
+		if err != nil {
+			return "", 0, 0, err
+		}
+		tmp = fcTmpOf(evs)
 	}
+	ops := fcOkOps(evs)
 	refs := fcRefsFor(pr)
 	type point struct{ i, k int }
 	pts := []point{}
+	sim := map[string][]byte{}
+	for _, f := range pr.fs0 {
+		sim[f.name] = pr.blobs[f.blob]
+	}
 	for i := 0; i <= len(ops); i++ {
-		if i < len(ops) && ops[i].kind == "Write" {
+		if i < len(ops) && ops[i].isWrite() {
 			n := len(ops[i].data)
 			ks := []int{0, 1, n / 2, n - 1, n}
+			if ops[i].kind == "WriteAt" {
+				// an in-place write: also stop right after the first and right before the last
+				// byte that it changes
+				cur := sim[ops[i].a]
+				d0, d1 := -1, -1
+				for j := 0; j < n; j++ {
+					at := int(ops[i].off) + j
+					if at >= len(cur) || cur[at] != ops[i].data[j] {
+						if d0 < 0 {
+							d0 = j
+						}
+						d1 = j
+					}
+				}
+				if d0 >= 0 {
+					ks = append(ks, d0+1, d1, (d0+d1+1)/2)
+				}
+			}
 			if thorough {
 				if n <= 96 {
-					ks = nil
 					for k := 0; k <= n; k++ {
 						ks = append(ks, k)
 					}
@@ -727,6 +932,9 @@ func fcCrashCase(pr fcPair, oldlist bool, thorough bool) (string, int, int, erro
 		} else {
 			pts = append(pts, point{i, 0})
 		}
+		if i < len(ops) {
+			fcSimApply(sim, ops[i])
+		}
 	}
 	obs := []string{}
 	flagged := 0
@@ -742,53 +950,25 @@ func fcCrashCase(pr fcPair, oldlist bool, thorough bool) (string, int, int, erro
 			flagged++
 		}
 	}
-	return fcCaseTerm(pr, oldlist, pr.tmp, obs), len(pts), flagged, nil
+	return fcCaseTerm(pr, oldlist, tmp, evs, false, obs), len(pts), flagged, nil
 }
 
 // fcKillCase produces a crash state by REALLY killing the real Put: the child process
 // (fscrash_put1) runs under strace with SIGKILL injected on entry to the given system call
-// (write: before any byte of the record is transferred; fchmod: after the write; renameat:
-// just before the rename; "": not killed).  at = the model's crash point for that moment.
-func fcKillCase(self string, pr fcPair, syscall string, at int) (string, bool, error) {
+// (write: before any byte is transferred; fchmod: after the write; renameat: just before the
+// rename; "": not killed).  The case carries what the child did before dying; the directory it
+// left behind is observed as the crash state "all of that done".  If the call never happens the
+// child simply completes and the case says so (killed = false).
+func fcKillCase(self string, pr fcPair, syscall string) (string, bool, error) {
 	base, err := os.MkdirTemp("/tmp", "fscrash-kill-")
 	if err != nil {
 		return "", false, err
 	}
 	defer os.RemoveAll(base)
-	dir := filepath.Join(base, "store")
-	os.MkdirAll(dir, 0700)
-	for _, f := range pr.fs0 {
-		os.WriteFile(filepath.Join(dir, f.name), pr.blobs[f.blob], 0600)
-	}
-	valfile := filepath.Join(base, "val")
-	os.WriteFile(valfile, pr.blobs[pr.newi], 0600)
-	var cmd *exec.Cmd
-	if syscall == "" {
-		cmd = exec.Command(self, "fscrash_put1")
-	} else {
-		cmd = exec.Command("strace", "-f", "-e", "trace="+syscall, "-e", "inject="+syscall+":signal=KILL",
-			"-o", filepath.Join(base, "log"), self, "fscrash_put1")
-	}
-	cmd.Env = append(os.Environ(), "FSCRASH_DIR="+dir, fmt.Sprintf("FSCRASH_TYPE=%d", db.DATATYPE_STATE),
-		"FSCRASH_SESSION=", "FSCRASH_KEY="+pr.sid, "FSCRASH_VALFILE="+valfile)
-	out, err := cmd.CombinedOutput()
-	if syscall == "" && err != nil {
-		return "", false, fmt.Errorf("put child: %v: %s", err, out)
-	}
-	if syscall != "" && (err == nil || bytes.Contains(out, []byte("PUTOK"))) {
-		return "", false, fmt.Errorf("child was not killed at %s: %s", syscall, out)
-	}
-	// the temp file's name is chosen by the real code
-	tmp := ".tmp-none"
-	inFs0 := map[string]bool{}
-	for _, f := range pr.fs0 {
-		inFs0[f.name] = true
-	}
-	ents, _ := os.ReadDir(dir)
-	for _, e := range ents {
-		if strings.HasPrefix(e.Name(), ".tmp-") && !inFs0[e.Name()] {
-			tmp = e.Name()
-		}
+	dir := fcStoreFor(pr, base)
+	evs, killed, _, err := fcStracePut(self, base, dir, db.DATATYPE_STATE, "", pr.sid, pr.blobs[pr.newi], syscall, false)
+	if err != nil {
+		return "", false, err
 	}
 	refs := fcRefsFor(pr)
 	scratch, err := os.MkdirTemp("/tmp", "fscrash-cs-")
@@ -799,13 +979,13 @@ func fcKillCase(self string, pr fcPair, syscall string, at int) (string, bool, e
 	if err := os.Rename(dir, scratch); err != nil {
 		return "", false, err
 	}
-	t, bad := fcObserve(pr, refs, scratch, at, 0)
-	return fcCaseTerm(pr, false, tmp, []string{t}), bad, nil
+	t, bad := fcObserve(pr, refs, scratch, len(fcOkOps(evs)), 0)
+	return fcCaseTerm(pr, false, fcTmpOf(evs), evs, killed, []string{t}), bad, nil
 }
 
 // ---- generation ----------------------------------------------------------------------------
 
-var fcInputs = []string{"1", "2", "0", "1", "0", "9", ""}
+var fcInputs = []string{"1", "2", "0", "1", "0", "9", "", "3"}
 
 // fcHistory runs a session for the given inputs in a scratch store and returns the record bytes
 // after every request.
@@ -847,12 +1027,37 @@ func fcGenPair(r *rand.Rand, idx int, kind string) (fcPair, error) {
 	var recs [][]byte
 	for try := 0; ; try++ {
 		ins = fcGenInputs(r, h+1)
+		if kind == "eqlen" {
+			// previous and new record of EXACTLY equal length and different content: two
+			// consecutive requests at node dd, which only replace one cached digit
+			digits := []string{"1", "2", "4", "5", "7", "9"}
+			ins = []string{""}
+			if r.Intn(2) == 0 {
+				ins = append(ins, "2", "0")
+			}
+			ins = append(ins, "3")
+			for j := r.Intn(3); j >= 0; j-- {
+				ins = append(ins, digits[r.Intn(len(digits))])
+			}
+			ins = append(ins, digits[r.Intn(len(digits))])
+			h = len(ins) - 1
+		}
 		var err error
 		recs, err = fcHistory(sid, ins)
 		if err != nil {
 			return fcPair{}, err
 		}
-		if !bytes.Equal(recs[h-1], recs[h]) || try > 20 {
+		ok := !bytes.Equal(recs[h-1], recs[h])
+		if kind == "eqlen" {
+			ok = ok && len(recs[h-1]) == len(recs[h])
+		}
+		if ok {
+			break
+		}
+		if try > 40 {
+			if kind == "eqlen" {
+				return fcPair{}, fmt.Errorf("no equal-length pair of records found for %v", ins)
+			}
 			break
 		}
 	}
@@ -921,8 +1126,13 @@ func runFsCrash(o opts) error {
 		v := make([]byte, r.Intn(300))
 		r.Read(v)
 		sp := fcTraceSpec{kind: 0, typ: db.DATATYPE_STATE, key: []string{"s0", "ab", "x.y"}[r.Intn(3)], val: v}
-		if r.Intn(2) == 0 {
+		switch r.Intn(3) {
+		case 0:
 			sp.prior = []byte("prior")
+		case 1:
+			// an existing record of exactly the same length
+			sp.prior = make([]byte, len(v))
+			r.Read(sp.prior)
 		}
 		if r.Intn(3) == 0 {
 			sp.typ = db.DATATYPE_USERDATA
@@ -949,7 +1159,7 @@ func runFsCrash(o opts) error {
 	}
 
 	// (2) crash states of the current operation list
-	kinds := []string{"pair", "first", "legacy", "stale", "tmpsid"}
+	kinds := []string{"pair", "first", "legacy", "stale", "tmpsid", "eqlen"}
 	total := len(kinds) + o.n
 	for i := 0; i < total; i++ {
 		kind := "pair"
@@ -957,13 +1167,15 @@ func runFsCrash(o opts) error {
 			kind = kinds[i]
 		} else if i%7 == 6 {
 			kind = "first"
+		} else if i%4 == 1 {
+			kind = "eqlen"
 		}
 		r := hx.Rng(o.seed, "fscrash-pair", i)
 		pr, err := fcGenPair(r, i, kind)
 		if err != nil {
 			return err
 		}
-		term, n, flagged, err := fcCrashCase(pr, false, thorough)
+		term, n, flagged, err := fcCrashCase(self, pr, false, thorough)
 		if err != nil {
 			return err
 		}
@@ -980,16 +1192,15 @@ func runFsCrash(o opts) error {
 		kind := "pair"
 		if i%4 == 3 {
 			kind = "first"
+		} else if i%4 == 1 {
+			kind = "eqlen"
 		}
 		pr, err := fcGenPair(r, i, kind)
 		if err != nil {
 			return err
 		}
-		for _, kp := range []struct {
-			sc string
-			at int
-		}{{"write", 1}, {"fchmod", 2}, {"renameat", 4}, {"", 5}} {
-			term, bad, err := fcKillCase(self, pr, kp.sc, kp.at)
+		for _, kp := range []struct{ sc string }{{"write"}, {"fchmod"}, {"renameat"}, {""}} {
+			term, bad, err := fcKillCase(self, pr, kp.sc)
 			if err != nil {
 				return err
 			}
@@ -1018,7 +1229,7 @@ func runFsCrash(o opts) error {
 		if err != nil {
 			return err
 		}
-		term, n, flagged, err := fcCrashCase(pr, true, false)
+		term, n, flagged, err := fcCrashCase(self, pr, true, false)
 		if err != nil {
 			return err
 		}
